@@ -527,15 +527,33 @@ def _minmax(args, key, default, pick_first_if):
 _NODEF = object()
 
 
+def _mat(a):
+    if len(a) == 1 and not isinstance(a[0], (list, tuple)):
+        return (list(a[0]),)
+    return a
+
+
 def smin(*a, key=None, default=_NODEF):
+    a = _mat(a)
     if not any(_has_sym(x) for x in a):
-        return builtins.min(*a) if key is None and default is _NODEF else builtins.min(*a, key=key)
+        kw = {}
+        if key is not None:
+            kw["key"] = key
+        if default is not _NODEF:
+            kw["default"] = default
+        return builtins.min(*a, **kw)
     return _minmax(a, key, default, lambda x, r: x < r)
 
 
 def smax(*a, key=None, default=_NODEF):
+    a = _mat(a)
     if not any(_has_sym(x) for x in a):
-        return builtins.max(*a) if key is None and default is _NODEF else builtins.max(*a, key=key)
+        kw = {}
+        if key is not None:
+            kw["key"] = key
+        if default is not _NODEF:
+            kw["default"] = default
+        return builtins.max(*a, **kw)
     return _minmax(a, key, default, lambda x, r: x > r)
 
 
